@@ -912,6 +912,10 @@ func (l *LineWrapper) fillUntil(runs RunIterator, option breakOption) {
 			l.mapper.mapRun(currRunIndex, run)
 			isFirstInLine := l.scratch.candidateLen() == 0
 			run = cutRun(run, l.mapper.mapping, l.lineStartRune, run.Runes.Count+run.Runes.Offset, isFirstInLine)
+		} else if l.scratch.candidateLen() == 0 {
+			// the line starts exactly with this run: its leading letter spacing is trimmed as well
+			run.trimStartLetterSpacing()
+			run.RecomputeAdvance()
 		}
 		// While the run being processed doesn't contain the current line breaking
 		// candidate, just append it to the candidate line.
